@@ -708,6 +708,95 @@ def _quantile_case(args):
     return cnt, out
 
 
+def _inside_any(px, py, polys):
+    """Even-odd containment of points in the union of closed polylines
+    (crossing number, counted over all polylines together)."""
+    cross = np.zeros(len(px), int)
+    for poly in polys:
+        xs, ys = poly[:, 0], poly[:, 1]
+        x2, y2 = np.roll(xs, -1), np.roll(ys, -1)
+        for a, b, c, d in zip(xs, ys, x2, y2):
+            if b == d:
+                continue
+            hit = ((b > py) != (d > py)) & (
+                px < a + (py - b) * (c - a) / (d - b))
+            cross += hit
+    return cross % 2 == 1
+
+
+def _contour_lines_case(args):
+    """The contour lines drawn at the density level of a quantile
+    (`find_contours_level`, closed at the border of the mesh) separate the
+    events: an event whose interpolated density is clearly above the level
+    lies inside the lines, one clearly below lies outside - for three
+    estimators on a two-cluster sample with filtered-out poison events,
+    linear and logarithmic y scale, three quantiles."""
+    seed, = args
+    import scipy.interpolate as spint
+    from dclab import kde_contours
+    out = []
+    cnt = 0
+    rs = np.random.RandomState(seed + 23)
+    n = 300
+    x = np.concatenate([rs.normal(80, 8, n // 2), rs.normal(130, 10, n // 2)])
+    y = np.concatenate([rs.normal(0.05, 0.008, n // 2),
+                        rs.normal(0.12, 0.015, n // 2)])
+    mask = np.arange(n) % 6 != 1
+    xf, yf = x.copy(), y.copy()
+    for i in np.flatnonzero(~mask):
+        xf[i], yf[i] = POISON[i % len(POISON)]
+    ds = _new(xf, yf)
+    ds.filter.manual[:] = mask
+    ds.apply_filter()
+    xs, ys = x[mask], y[mask]
+    W = "dclab.kde_contours:find_contours_level"
+    for kt in ("histogram", "gauss", "multivariate"):
+        for yscale in ("linear", "log"):
+            xm, ym, dens = ds.get_kde_contour(kde_type=kt, yscale=yscale)
+            dp = spint.interpn((xm[:, 0], ym[0, :]), dens, (xs, ys),
+                               method="linear", bounds_error=False,
+                               fill_value=0)
+            for q in (0.3, 0.5, 0.8):
+                cnt += 1
+                case = {"kind": "contour-lines", "kde": kt,
+                        "yscale": yscale, "q": q, "seed": seed}
+                tags = {"kde": kt, "yscale": yscale}
+                try:
+                    lev = kde_contours.get_quantile_levels(
+                        density=dens, x=xm, y=ym, xp=xs, yp=ys, q=q,
+                        normalize=True)
+                    conts = kde_contours.find_contours_level(
+                        dens, xm, ym, lev, closed=True)
+                except Exception as e:
+                    out.append(violation(W, "exception", case,
+                                         f"{type(e).__name__}: {e}",
+                                         dict(tags, exc=type(e).__name__)))
+                    continue
+                level = lev * dens.max()
+                open_ = [c for c in conts
+                         if not np.allclose(c[0], c[-1])]
+                if open_:
+                    out.append(violation(
+                        W, "contour-not-closed", case,
+                        f"{len(open_)} of {len(conts)} lines are open "
+                        f"although closed=True", tags))
+                    continue
+                inside = _inside_any(xs, ys, [np.asarray(c) for c in conts])
+                above = dp > level * 1.15
+                below = dp < level * 0.85
+                wrong = int((above & ~inside).sum() + (below & inside).sum())
+                if wrong > 0.02 * len(xs):
+                    out.append(violation(
+                        W, "contour-lines-misplaced", case,
+                        f"{kt}/{yscale} q={q}: {int((above & ~inside).sum())}"
+                        f" of {int(above.sum())} events clearly above the "
+                        f"level are outside the lines, "
+                        f"{int((below & inside).sum())} of "
+                        f"{int(below.sum())} clearly below are inside",
+                        tags))
+    return cnt, out
+
+
 def run(ctx):
     n = 9 if ctx.quick else 10
     total = 2 ** n
@@ -719,6 +808,7 @@ def run(ctx):
                   for lo in range(0, 64, 4)]
     res = par.pmap(_mask_case, items)
     res += par.pmap(_quantile_case, [(ctx.seed,)])
+    res += par.pmap(_contour_lines_case, [(ctx.seed,)])
     res += par.pmap(_bigtsv_case, [(ctx.scratch,)])
     res += par.pmap(_bigkde_case, [(kt,) for kt in (
         "histogram", "gauss", "multivariate")])
@@ -770,6 +860,9 @@ def replay(case, ctx):
                 if v["case"] == case]
     if case["kind"] == "invalid-switch":
         return [v for v in _invalid_switch_case((case["seed"],))[1]
+                if v["case"] == case]
+    if case["kind"] == "contour-lines":
+        return [v for v in _contour_lines_case((case["seed"],))[1]
                 if v["case"] == case]
     if case["kind"] == "bigkde":
         return [v for v in _bigkde_case((case["kde"],))[1]
